@@ -14,11 +14,16 @@ from sim import rng
 from sim.base import BaseCheck
 from models import orderedmap as om
 
-KEYS = ['a', 'b', 'c', 'd', 'e'] + ['k%02d' % i for i in range(40)]
+KEYS = ['ka', 'kb', 'kc', 'kd', 'ke'] + ['k%02d' % i for i in range(40)]
 ABSENT = 'zz'
 MUTATORS = ('set', 'add', 'del', 'pop', 'pop_at', 'popitem', 'setdefault', 'update', 'clear',
             'sort', 'reverse', 'append', 'extend')
 POSITIONAL = ('add', 'pop_at', 'sort', 'reverse')
+
+
+def fresh(key):
+    """An equal but distinct string object (CPython shares 0- and 1-character strings, so keys have two or more)."""
+    return bytes(key, 'utf-8').decode('utf-8') if len(key) > 1 else key
 
 
 def canon(v):
@@ -280,6 +285,14 @@ class C16(BaseCheck):
 
     def _apply(self, m, o):
         from hszinc.sortabledict import SortableDict
+        # every key handed to the map is a NEW string object equal to the one used before (keys that come out
+        # of a parser or are built at run time are never the identical object): identity must not matter
+        o = dict(o)
+        for f in ('k', 'pos_key'):
+            if isinstance(o.get(f), str):
+                o[f] = fresh(o[f])
+        if 'pairs' in o:
+            o['pairs'] = [[fresh(k_), v_] for k_, v_ in o['pairs']]
         op = o['op']
         if op == 'set':
             m[o['k']] = mkval(o['v'])
